@@ -548,7 +548,8 @@ def effective_function(ck, fi, _depth=0):
     for d in reversed(decs):
         if not isinstance(d, ast.Name):
             continue
-        dec_fi = fi.module.functions.get(d.id)
+        # (a plain function in the class body used as a decorator there counts as well)
+        dec_fi = fi.module.functions.get(d.id) or (fi.cls.methods.get(d.id) if fi.cls is not None else None)
         if dec_fi is None or dec_fi.qual not in new:
             continue
         b2 = _apply_decorator(out, dec_fi)
